@@ -645,6 +645,26 @@ func (c *Ctx) clearTriple(rule, fn string, st *ast.IfStmt, recv, doneObj types.O
 		return
 	}
 	key := fn + ":" + guard
+	// the guard must be the plain non-zero test of the field (F != nil, F != "", F): anything weaker
+	// (len(F) > 0) leaves a present-but-empty keyword in place while the has-query still sees it
+	shapeOK := false
+	switch g := unparen(st.Cond).(type) {
+	case *ast.BinaryExpr:
+		if g.Op == token.NEQ && isZeroExpr(c, g.Y) {
+			if p, ok := c.apath(g.X); ok && p.Root == recv {
+				shapeOK = true
+			}
+		}
+	case *ast.SelectorExpr, *ast.Ident:
+		if p, ok := c.apath(g); ok && p.Root == recv {
+			shapeOK = true
+		}
+	}
+	if !shapeOK {
+		c.ob(rule, key, st.Pos(), false, "the guard is not the plain non-zero test of the field: a keyword that is present with an empty value is neither cleared nor reported, and the has-query stays true")
+		cleared[guard] = true
+		return
+	}
 	if cleared[guard] {
 		c.ob(rule, key, st.Pos(), false, "validation handled twice: callbacks would see it twice")
 		return
